@@ -21,8 +21,10 @@ import Babble.Proofs.DagVote
       abstract vote core, so: any two deciders of a witness' fame agree, whichever nodes hold them;
       a witness a node did not hold when it declared the round decided is never famous for anybody
       (the `decided` latch of `RoundInfo` is sound); and two nodes that both declared round r decided
-      have the same set of famous witnesses of r.  Round-received of an event, the frame of a round
-      and the block are functions of those sets (C03, C04).
+      have the same set of famous witnesses of r; hence `round_received_agrees` and `frames_agree`:
+      the round received of an event and the set of events received in a round are the same on all
+      nodes (the block body is then the canonical sort of the frame, C03/C04).  The declarative
+      `DecideRoundReceived` (`Dag.rrFrom`) and Lamport timestamps are compared with the Go code too.
 
     NOT proved (decided by correspondence + oracle only): the refinement from the operational model
     `Babble.HG` (coordinates, stored tables) to `Babble.Dag` — both are compared with the Go code
@@ -85,6 +87,23 @@ theorem famous_sets_agree {ps : List Nat} {U A B : Dag.E → Prop} (H : Dag.Hist
     (dA : Dag.RoundDecided ps A r) (dB : Dag.RoundDecided ps B r) (x : Dag.E) :
     Dag.FamousIn ps A r x ↔ Dag.FamousIn ps B r x :=
   Dag.famous_agree H hA hB dA dB x
+
+/-- **round_received_agrees**: two nodes that both assign a round received to an event assign the
+    same one (`k` = the supermajority the Go code asks of the number of famous witnesses) -/
+theorem round_received_agrees {ps : List Nat} {U A B : Dag.E → Prop} (H : Dag.Hist ps U)
+    (hA : Dag.View A U) (hB : Dag.View B U) {k : Nat} {e : Dag.E} {i j : Int}
+    (hi : Dag.RoundReceived ps A k e i) (hj : Dag.RoundReceived ps B k e j) : i = j :=
+  Dag.round_received_agree H hA hB hi hj
+
+/-- **frames_agree**: the events a node receives in round `i` are received in round `i` by every
+    node that has decided the rounds in between — and such a node holds them: the frame of a round,
+    hence the block made from it, has the same events everywhere -/
+theorem frames_agree {ps : List Nat} {U A B : Dag.E → Prop} (H : Dag.Hist ps U)
+    (hA : Dag.View A U) (hB : Dag.View B U) {k : Nat} (hk : 1 ≤ k) {e : Dag.E} {i : Int}
+    (hi : Dag.RoundReceived ps A k e i)
+    (dB : ∀ j, Dag.round ps e < j → j ≤ i → Dag.RoundDecided ps B j) :
+    B e ∧ Dag.RoundReceived ps B k e i :=
+  Dag.round_received_transfer H hA hB hk hi dB
 
 /-- non-vacuity: a one-event history is a history (larger ones are evaluated, not proved: every
     static view of every generated DAG goes through `Dag.build`, see the correspondence run) -/
